@@ -39,6 +39,8 @@ def c_expr(e):
         return capp("EPath", c_info(e["info"]), c_path(e["path"]))
     if t == "array":
         return capp("EArray", c_info(e["info"]), clist([c_expr(x) for x in e["es"]]))
+    if t == "neg":
+        return capp("ENeg", c_info(e["info"]), c_lit(e["lit"]))
     return capp("EOther", c_info(e["info"]), cstr(e["kind"]))
 
 
